@@ -26,7 +26,8 @@ M={
  'fra_fwd_basis': (R+'ibor_fra.py', "        libor_fwd = (df_index1 / df_index2 - 1.0) / acc_factor\n\n        # Get the discount factor from a discount curve\n        df_mat", "        libor_fwd = (df_index1 / df_index2 - 1.0)\n\n        # Get the discount factor from a discount curve\n        df_mat"),
  'deposit_no_settle': (R+'ibor_deposit.py', "        value = value * df_maturity / df_settle\n\n        return value", "        value = value * df_maturity\n\n        return value"),
  'ois_float_lag_dropped': (R+'ois.py', "            float_dc_type,\n            notional,\n            principal,\n            payment_lag,", "            float_dc_type,\n            notional,\n            principal,\n            0,"),
- 'equity_fill_tiled': ('financepy/products/equity/equity_swap.py', "        self.rate_leg.notional_array = []\n        for last_notional in self.equity_leg.last_notionals:\n            for _ in range(multiple):\n                self.rate_leg.notional_array.append(last_notional)\n", "        self.rate_leg.notional_array = list(self.equity_leg.last_notionals) * multiple\n"),
+ 'equity_fill_tiled': ('financepy/products/equity/equity_swap.py', "            self.rate_leg.notional_array.append(last_notionals[i_eq])\n", "            self.rate_leg.notional_array.append(last_notionals[len(self.rate_leg.notional_array) % len(last_notionals)])\n"),
+ 'equity_fill_boundary_gt': ('financepy/products/equity/equity_swap.py', "start_dt >= eq_end_dts[i_eq]", "start_dt > eq_end_dts[i_eq]"),
  'equity_payment_from_contract_notional': ('financepy/products/equity/equity_swap_leg.py', "payment_amount = next_notional - last_notional", "payment_amount = next_notional - self.notional"),
  'equity_no_dfvalue': ('financepy/products/equity/equity_swap_leg.py', "df_payment = discount_curve.df(payment_dt) / df_value", "df_payment = discount_curve.df(payment_dt)"),
  'fixed_cum_last_flow_only_if_gt1': (R+'swap_fixed_leg.py', "            payment = year_frac * self.notional * self.cpn\n", "            payment = year_frac * self.notional * self.cpn if len(self.payments) < 40 else year_frac * self.notional * self.cpn * 1.0001\n"),
